@@ -30,6 +30,7 @@ type Plan struct {
 // Proxy is a counting, fault-injecting TCP proxy in front of one backend address.
 type Proxy struct {
 	ln      net.Listener
+	addr    string
 	backend string
 
 	mu      sync.Mutex
@@ -60,12 +61,41 @@ func NewProxy(backend string) (*Proxy, error) {
 	if err != nil {
 		return nil, err
 	}
-	p := &Proxy{ln: ln, backend: backend, conns: map[*pconn]struct{}{}}
-	go p.acceptLoop()
+	p := &Proxy{ln: ln, addr: ln.Addr().String(), backend: backend, conns: map[*pconn]struct{}{}}
+	go p.acceptLoopOn(ln)
 	return p, nil
 }
 
-func (p *Proxy) Addr() string { return p.ln.Addr().String() }
+func (p *Proxy) Addr() string { return p.addr }
+
+// StopListening closes the listener: dials are refused by the kernel until StartListening.
+func (p *Proxy) StopListening() {
+	p.mu.Lock()
+	ln := p.ln
+	p.mu.Unlock()
+	ln.Close()
+}
+
+// StartListening listens again on the same address.
+func (p *Proxy) StartListening() error {
+	var ln net.Listener
+	var err error
+	for i := 0; i < 200; i++ {
+		ln, err = net.Listen("tcp", p.addr)
+		if err == nil {
+			break
+		}
+		time.Sleep(5 * time.Millisecond)
+	}
+	if err != nil {
+		return err
+	}
+	p.mu.Lock()
+	p.ln = ln
+	p.mu.Unlock()
+	go p.acceptLoopOn(ln)
+	return nil
+}
 
 // SetBackend redirects new connections.
 func (p *Proxy) SetBackend(addr string) {
@@ -95,9 +125,9 @@ func (p *Proxy) SetLatency(d time.Duration) {
 	p.mu.Unlock()
 }
 
-func (p *Proxy) acceptLoop() {
+func (p *Proxy) acceptLoopOn(ln net.Listener) {
 	for {
-		c, err := p.ln.Accept()
+		c, err := ln.Accept()
 		if err != nil {
 			return
 		}
@@ -254,6 +284,9 @@ func (p *Proxy) KillAll(kind CutKind) {
 
 func (p *Proxy) Close() {
 	p.closed.Store(true)
-	p.ln.Close()
+	p.mu.Lock()
+	ln := p.ln
+	p.mu.Unlock()
+	ln.Close()
 	p.KillAll(CutRST)
 }
